@@ -288,6 +288,14 @@ def _impl(tier, seed, search):
                     return x.prod() if hasattr(x, 'prod') else x[0]
                 depth = int(g.integers(1, 6))
                 valid_obj(f'expr-{cname}', lambda: tree(depth), dict(cls=cname, depth=depth, shape=desc))
+    # round 11: SE2.SE3(z) — the lifted motion is a member of SE(3) (planar rotation about z, translation (x, y, z)), single values and sequences
+    for x_, y_, th_, z_ in ((1.0, 2.0, 0.3, 0.0), (-4.0, 1000.0, -2.5, 7.0), (0.0, 0.0, 1.0, -3.0), (1e-3, -2e5, 3.0, 0.5)):
+        inp_ = dict(x=x_, y=y_, theta=th_, z=z_)
+        for nm_, mk_ in (('SE2.SE3', lambda: SE2(x_, y_, th_).SE3(z_) if z_ else SE2(x_, y_, th_).SE3()), ('SE2[2].SE3', lambda: SE2([SE2(x_, y_, th_), SE2(y_, x_, -th_)]).SE3(z_))):
+            X_ = valid_obj(nm_, mk_, inp_)
+            if X_ is not None:
+                ref_ = np.eye(4); ref_[:2, :2] = [[math.cos(th_), -math.sin(th_)], [math.sin(th_), math.cos(th_)]]; ref_[:3, 3] = [x_, y_, z_]
+                L.close(f'{nm_}:value', np.asarray(X_.data[0], float), ref_, 1e-12, max(1.0, abs(x_), abs(y_)), inp_, what='SE2.SE3() is not the planar motion lifted to 3-D', sig='SE2.SE3:value')
     return L.result()
 
 if __name__ == '__main__':
